@@ -247,11 +247,18 @@ def validate (H : Bytes → Bytes) (post : Bool) (p : MerkleProof) (root : HashR
 with `n ≤ 2^k`.  (The float expression is compared with this by the correspondence check.) -/
 def levels (n : Nat) : Nat := if n ≤ 1 then 0 else (n - 1).log2 + 1
 
-/-- The level check of `Keeper.ValidateProof` followed by `Validate`: the number of sibling
-entries must equal `levels totalProofs` (this is what keeps `HashRanges[i]` in range). -/
+/-- The `hasMatch` loop of `Keeper.ValidateProof`: some sibling entry, or the target, must end where
+the claimed root ends. -/
+def hasMatch (p : MerkleProof) (root : HashRange) : Bool :=
+  p.hashRanges.any (fun m => m.upper == root.upper) || p.target.upper == root.upper
+
+/-- The merkle part of `Keeper.ValidateProof`: the number of sibling entries must equal
+`levels totalProofs` (this is what keeps `HashRanges[i]` in range), the `hasMatch` test, then
+`Validate` with that many levels.  Both early errors are reported as `(false, false)`. -/
 def validateProof (H : Bytes → Bytes) (post : Bool) (p : MerkleProof) (root : HashRange) (leaf : Bytes)
     (totalProofs : Nat) : Option (Bool × Bool) :=
   if p.hashRanges.length ≠ levels totalProofs then some (false, false)
+  else if !hasMatch p root then some (false, false)
   else validate H post p root leaf p.hashRanges.length
 
 end SumIndex
